@@ -32,7 +32,7 @@ MODEL_CTORS = {
 #   NameConstant/Num/Str -- aliases kept for Python < 3.8; the parser of the running interpreter yields Constant only
 #   (checked below: these classes are never produced).
 OTHER_VISITS = {'Expression', 'NameConstant', 'Num', 'Str'}
-ARITH = {'Add': 'Add', 'Sub': 'Sub', 'Mult': 'Mult', 'Div': 'Div', 'Mod': 'Mod'}
+ARITH = {'Add': 'AAdd', 'Sub': 'ASub', 'Mult': 'AMult', 'Div': 'ADiv', 'Mod': 'AMod'}
 CMPOPS = ['Eq', 'NotEq', 'Lt', 'LtE', 'Gt', 'GtE', 'Is', 'IsNot', 'In', 'NotIn']
 
 
@@ -104,7 +104,13 @@ def check_collector_tie():
 # Python values -> Coq terms
 
 Z = core.zlit
-S = core.strlit
+
+
+def S(s):
+  """A Python str as a Coq term of type str (list Z of code points); printable ASCII is written compactly."""
+  if all(32 <= ord(c) <= 126 for c in s):
+    return '(lit "%s"%%string)' % s.replace('"', '""')
+  return core.strlit(s)
 
 
 def float_bits(x):
@@ -147,17 +153,17 @@ def coq_expr(n, apos=None):
   if cls not in MODEL_CTORS:
     return '(EUnsupported %s %s)' % (p, S(cls))
   if cls == 'BoolOp':
-    return '(EBoolOp %s %s %s)' % (p, type(n.op).__name__, core.coq_list([rec(v) for v in n.values]))
+    return '(EBoolOp %s %s %s)' % (p, {'And': 'BAnd', 'Or': 'BOr'}[type(n.op).__name__], core.coq_list([rec(v) for v in n.values]))
   if cls == 'BinOp':
     o = type(n.op).__name__
     op = '(BArith %s)' % ARITH[o] if o in ARITH else '(BOther %s)' % S(o)
     return '(EBinOp %s %s %s %s)' % (p, op, rec(n.left), rec(n.right))
   if cls == 'UnaryOp':
     o = type(n.op).__name__
-    op = 'Not' if o == 'Not' else '(UOther %s)' % S(o)
+    op = 'UNot' if o == 'Not' else '(UOther %s)' % S(o)
     return '(EUnaryOp %s %s %s)' % (p, op, rec(n.operand))
   if cls == 'Compare':
-    return '(ECompare %s %s %s %s)' % (p, rec(n.left), core.coq_list([type(o).__name__ for o in n.ops]),
+    return '(ECompare %s %s %s %s)' % (p, rec(n.left), core.coq_list(['Op' + type(o).__name__ for o in n.ops]),
                                       core.coq_list([rec(c) for c in n.comparators]))
   if cls == 'Name':
     return '(EName %s %s)' % (p, S(n.id))
@@ -304,7 +310,8 @@ def in_eval_subset(n, top=True):
   if cls == 'List':
     return all(in_eval_subset(e) for e in n.elts)
   if cls == 'Call':
-    return in_eval_subset(n.func) and all(in_eval_subset(a) for a in n.args) and \
+    names = [k.arg for k in n.keywords]
+    return in_eval_subset(n.func) and all(in_eval_subset(a) for a in n.args) and len(set(names)) == len(names) and \
         all(k.arg is not None and in_eval_subset(k.value) for k in n.keywords)
   return False
 
@@ -437,24 +444,31 @@ ENV_NAMES = ['rec', 'newRec', 'oldRec', 'user', 'choice', 'r', 'n', 'a', 'b', 'x
 FUNCS = ['f', 'g', 'func']
 
 
-def gen_env(rng):
+def gen_env(rng, body=None):
+  """A random environment; with `body`, only for the names and attributes the expression mentions (plus a few)."""
+  names, attrs = list(ENV_NAMES), list(ATTRS)
+  if body is not None:
+    used = [n.id for n in ast.walk(body) if isinstance(n, ast.Name)]
+    names = sorted(set(n for n in used if n not in FUNCS)) + [rng.choice(ENV_NAMES)]
+    attrs = sorted(set(n.attr for n in ast.walk(body) if isinstance(n, ast.Attribute))) + [rng.choice(ATTRS)]
   env = {}
-  for name in ENV_NAMES:
-    if rng.random() < 0.12:
+  for name in names:
+    if rng.random() < 0.1:
       continue           # NameError
-    if name in ('rec', 'newRec', 'oldRec', 'user', 'choice', 'r', 'n') and rng.random() < 0.85:
-      attrs = {}
-      for a in ATTRS:
-        if rng.random() < 0.8:
-          if rng.random() < 0.2:
-            attrs[a] = types.SimpleNamespace(**{b: gen_atom(rng) for b in ATTRS if rng.random() < 0.7})
+    if rng.random() < (0.85 if name in ('rec', 'newRec', 'oldRec', 'user', 'choice', 'r', 'n') else 0.3):
+      obj = {}
+      for a in attrs:
+        if rng.random() < 0.85:
+          if rng.random() < 0.25:
+            obj[a] = types.SimpleNamespace(**{b: gen_atom(rng) for b in attrs if rng.random() < 0.8})
           else:
-            attrs[a] = gen_atom(rng)
-      env[name] = types.SimpleNamespace(**attrs)
+            obj[a] = gen_atom(rng)
+      env[name] = types.SimpleNamespace(**obj)
     else:
       env[name] = gen_atom(rng)
   for f in FUNCS:
-    env[f] = make_fn(f)
+    if body is None or any(isinstance(n, ast.Name) and n.id == f for n in ast.walk(body)):
+      env[f] = make_fn(f)
   return env
 
 
@@ -669,14 +683,11 @@ class Gen(object):
   def with_hole(self, fill):
     """A valid formula with `fill` placed at a random operand position."""
     text = self.formula()
-    marker = 'HOLE_%d' % self.rng.randint(0, 999999)
-    # put a hole operand into a fresh small context around the generated formula
-    ctx = self.rng.choice(['%s', '%s and {0}', '{0} or %s', 'not %s', '[{0}, %s]', 'f(%s)', 'f(k=%s)', '%s == {0}',
-                           '{0} in %s', '%s + {0}', '(%s).x', '%s(1)', '({0}, %s)', 'f({0}, k=%s)'])
-    del marker
+    ctx = self.rng.choice(['<H>', '<H> and <F>', '<F> or <H>', 'not <H>', '[<F>, <H>]', 'f(<H>)', 'f(k=<H>)',
+                           '<H> == <F>', '<F> in <H>', '<H> + <F>', '(<H>).x', '<H>(1)', '(<F>, <H>)', 'f(<F>, k=<H>)'])
     if '#' in text or '\n' in text:
       text = self.expr(2)
-    return ctx.replace('{0}', '(' + text + ')') % fill
+    return ctx.replace('<F>', '(' + text + ')').replace('<H>', fill)
 
   def unsupported(self):
     return self.with_hole(self.rng.choice(self.UNSUPPORTED))
